@@ -13,10 +13,13 @@ REQUIRED_THEOREMS = [
     "C16.overlap_raises",
     "C16.close_stops_dispatch",
     "C16.close_leaves_clean",
+    "C16.exit_block_effect",
+    "C16.call_again_after_exit_raises",
+    "C16.exit_stops_dispatch",
 ]
 TRUSTED_EXTRA = [
     "M1 granularity: completion callbacks are atomic and happen at hook points of the caller (configure, compute_batch_size, sleep, consumer "
-    "pauses); interleavings inside a callback or between two bytecodes of the caller are not in the model",
+    "pauses, inside backend.abort_everything, between two calls and after the last one); interleavings inside a callback or between two bytecodes of the caller are not in the model",
     "modelled, not verified: the backend contract (each submitted batch executed at most once, its callback invoked at most once), "
     "threading.RLock, itertools.islice, queue.Queue, collections.deque, pickling of batches to worker processes",
 ]
